@@ -408,6 +408,8 @@ static void gen_zoo(const char *prop, int tier)
 				n = objs_of(-1, kk, list);
 				if (n && !strcmp(prop, "C09") && P(25))
 					add_op(CTX_DRV, t, 0, OP_RAISE, 1 + R(2), P(60) ? 0 : 1 + R(G->nthr), 0, 0);
+				else if (n && !strcmp(prop, "C09") && P(6))
+					add_op(CTX_DRV, t, 0, OP_RFORK, list[R(n)], 1, 0, 0);
 				else if (n && !strcmp(prop, "C09") && P(18))
 					add_op(CTX_DRV, t, 0, OP_BURST, list[R(n)],
 					       P(35) ? 1024 * (int64_t)(1 + R(P(80) ? 4 : big ? 66 : 8)) + (P(70) ? 0 : R(3) - 1) :	/* buffer-size boundaries */
